@@ -794,8 +794,90 @@ struct VecSelfOwner {
     }
 };
 
+// ------------------------------------------------------------------ element type with an overloaded unary operator& (owners must use addressof)
+struct Amp {
+    TCM t;
+    Amp() noexcept = default;
+    Amp(int v) noexcept : t(v) { } // NOLINT
+    int* operator&() noexcept { return nullptr; }             // deliberately useless: a smart-pointer-like address-of
+    int const* operator&() const noexcept { return nullptr; }
+};
+struct AmpOwner {
+    void step(vf::Chooser& ch)
+    {
+        unsigned w  = ch.pick(4);
+        unsigned n  = 1 + ch.pick(3);
+        bool clear_ = ch.flag();
+        char sit[32];
+        std::snprintf(sit, sizeof sit, "elements=%u,%s", n, clear_ ? "clear()" : "destructor");
+        switch (w) {
+        case 0: {
+            vf::crumb("inplace_vector<operator&-type,3>", "fill then clear/destroy", sit, "-");
+            {
+                etl::inplace_vector<Amp, 3> v{};
+                for (unsigned i = 0; i < n; ++i) { v.unchecked_emplace_back((int)i); }
+                live_in(v, n);
+                if (clear_) {
+                    v.clear();
+                    live_in(v, 0);
+                }
+                if (ch.flag()) {
+                    etl::inplace_vector<Amp, 3> c(v);
+                    live_in(c, v.size());
+                }
+            }
+            break;
+        }
+        case 1: {
+            vf::crumb("static_vector<operator&-type,3>", "fill then clear/destroy", sit, "-");
+            {
+                etl::static_vector<Amp, 3> v;
+                for (unsigned i = 0; i < n; ++i) { v.emplace_back((int)i); }
+                live_in(v, n);
+                if (n > 1) {
+                    v.erase(v.begin());
+                    live_in(v, n - 1);
+                }
+                if (clear_) {
+                    v.clear();
+                    live_in(v, 0);
+                }
+            }
+            break;
+        }
+        case 2: {
+            vf::crumb("optional<operator&-type>", "emplace then reset/destroy", sit, "-");
+            {
+                etl::optional<Amp> o;
+                o.emplace((int)n);
+                live_in(o, 1);
+                if (clear_) {
+                    o.reset();
+                    live_in(o, 0);
+                }
+            }
+            break;
+        }
+        default: {
+            vf::crumb("variant<operator&-type,int>", "emplace then switch/destroy", sit, "-");
+            {
+                etl::variant<Amp, int> v(etl::in_place_index<0>, (int)n);
+                live_in(v, 1);
+                if (clear_) {
+                    v.emplace<1>(3);
+                    live_in(v, 0);
+                }
+            }
+            break;
+        }
+        }
+        vf::cover("operator&-element", vf::mix(w, vf::mix(n, clear_)), true);
+        vf::expect_no_live("owner of operator&-elements destroyed");
+    }
+};
+
 // ------------------------------------------------------------------ case mapping
-constexpr unsigned kOwners = 12;
+constexpr unsigned kOwners = 13;
 template <typename Owner>
 void drive(Owner& o, vf::Chooser& ch, unsigned steps)
 {
@@ -815,7 +897,8 @@ void run_owner(unsigned id, vf::Chooser& ch, unsigned steps)
     case 8: { PairTupleOwner o; drive(o, ch, steps > 2 ? 2 : steps); break; }
     case 9: { VecSelfOwner<TCM, 3> o("tcm"); drive(o, ch, 1); break; }
     case 10: { VecSelfOwner<TCO, 3> o("tco"); drive(o, ch, 1); break; }
-    default: { VecSelfOwner<TMO, 2> o("tmo"); drive(o, ch, 1); break; }
+    case 11: { VecSelfOwner<TMO, 2> o("tmo"); drive(o, ch, 1); break; }
+    default: { AmpOwner o; drive(o, ch, 1); break; }
     }
 }
 
